@@ -193,6 +193,10 @@ class Write(Harness):
         out.append(dict(table="bed3", rows=[[1, 0, 0]], cuts=[], big_col=2, big_range=[2 ** 53 - 6, 2 ** 53 + 6], boundary_witnesses=True))
         out.append(dict(table="bed3", rows=[[1, 0, 0]], cuts=[], big_col=2, big_range=[2 ** 63 - 12, 2 ** 63 - 1], boundary_witnesses=True))
         out.append(dict(table="chromsizes", rows=[[1, 0], [2, 0]], cuts=[], big_col=1, big_range=[10 ** 17 - 6, 10 ** 17 + 6], boundary_witnesses=True))
+        # a lazily read table with a column assigned in place, written whole and in pieces
+        for tab, rows, cutsets in (("bed3", T["bed3"][3], [(1,), (2,), (1, 2)]), ("vcf", T["vcf"][1], [(1,)]), ("bed6", T["bed6"][1], [(1,)])):
+            for cuts in cutsets:
+                out.append(dict(table=tab, rows=rows, cuts=list(cuts), source="lazy_assigned"))
         # the pieces as ONE stream of chunks (chunks without entries in every position; a stream of nothing but empty chunks)
         for tab, rows in (("bed3", T["bed3"][3]), ("vcf", T["vcf"][1]), ("fastq", T["fastq"][2]), ("vcf", []), ("bed3", [])):
             n = len(rows)
@@ -223,6 +227,17 @@ class Write(Harness):
         n = len(skel["rows"])
 
         whole = build_table(ctx, skel, x)        # ONE table object: every write below is given this object or a slice of it
+
+        if skel.get("source") == "lazy_assigned":
+            # the same table reached another way: written with zeros in its first integer column, read back lazily, and the column
+            # assigned in place (t.start = values); selections of that object are what the piecewise write below hands to the writer
+            from bionumpy.bnpdataclass import replace
+            col = next(nm for nm, kind in TABLES[skel["table"]]["cols"] if kind == "int")
+            f0 = ctx.wfile()
+            NpBufferedWriter(f0, B).write(replace(whole, **{col: ctx.arr([0] * n, "int64")}))
+            lz = NpDataclassReader(NumpyFileReader(ctx.file(ctx.file_bytes(f0)), B), lazy=True).read()
+            setattr(lz, col, getattr(whole, col))
+            whole = lz
 
         def write(pieces, stream=False):
             f = ctx.wfile()
